@@ -340,13 +340,18 @@ func (x *mctx) nativeMutants() []Mut {
 	// --- type: another kind
 	{
 		m := o.clone()
-		for {
-			k := kindTable[c.Intn(len(kindTable), "kind")]
-			if k.Code != o.Type {
-				m.Type = k.Code
-				break
+		var cand []int64
+		for _, k := range kindTable {
+			if k.Code == o.Type {
+				continue
 			}
+			// (a 64-byte signature under the OLVM type is the known crash "OLVM:sig-length")
+			if k.Code == olvmCode && x.excl != nil && x.excl("OLVM:sig-length") {
+				continue
+			}
+			cand = append(cand, k.Code)
 		}
+		m.Type = cand[c.Intn(len(cand), "kind")]
 		add("type", m)
 	}
 	// --- per signature
@@ -503,7 +508,13 @@ func (x *mctx) nativeMutants() []Mut {
 // olvmMutants builds the mutants of an OLVM transaction.
 func (x *mctx) olvmMutants() []Mut {
 	var out []Mut
-	add := func(op string, m *mTx) { out = append(out, Mut{op, m.encode()}) }
+	add := func(op string, m *mTx) {
+		// known crash "OLVM:nil-chainid": a payload that parses but has no chain id
+		if pl, err := parseOLVM(m.Data); err == nil && pl.ChainID == nil && x.excl != nil && x.excl("OLVM:nil-chainid") {
+			return
+		}
+		out = append(out, Mut{op, m.encode()})
+	}
 	o := x.orig
 	c := x.c
 	pay, err := parseOLVM(o.Data)
@@ -580,7 +591,7 @@ func (x *mctx) olvmMutants() []Mut {
 		m := o.clone()
 		switch c.Intn(4, "memo") {
 		case 0:
-			m.Memo += "0"
+			m.Memo += "1"
 		case 1:
 			m.Memo = ""
 		case 2:
@@ -589,6 +600,12 @@ func (x *mctx) olvmMutants() []Mut {
 			m.Memo = "+" + m.Memo
 		}
 		add("memo", m)
+	}
+	if !(x.excl != nil && x.excl("OLVM:unsigned-payload-member")) {
+		// a different memo that still denotes the nonce
+		m := o.clone()
+		m.Memo = strings.Repeat("0", 1+c.Intn(3, "zeros")) + m.Memo
+		add("olvm-memo-leading-zeros", m)
 	}
 	{
 		m := o.clone()
@@ -606,24 +623,26 @@ func (x *mctx) olvmMutants() []Mut {
 		m.Sigs[0].Sig = flipByte(m.Sigs[0].Sig, c, "sig")
 		add("sig-flip#0", m)
 	}
-	{
-		m := o.clone()
-		s := m.Sigs[0].Sig
-		switch c.Intn(3, "trunc") {
-		case 0:
-			s = s[:len(s)-1]
-		case 1:
-			s = s[:32]
-		default:
-			s = []byte{}
+	if !(x.excl != nil && x.excl("OLVM:sig-length")) {
+		{
+			m := o.clone()
+			s := m.Sigs[0].Sig
+			switch c.Intn(3, "trunc") {
+			case 0:
+				s = s[:len(s)-1]
+			case 1:
+				s = s[:32]
+			default:
+				s = []byte{}
+			}
+			m.Sigs[0].Sig = s
+			add("sig-truncate#0", m)
 		}
-		m.Sigs[0].Sig = s
-		add("sig-truncate#0", m)
-	}
-	{
-		m := o.clone()
-		m.Sigs[0].Sig = append(m.Sigs[0].Sig, byte(c.Intn(256, "ext")))
-		add("sig-extend#0", m)
+		{
+			m := o.clone()
+			m.Sigs[0].Sig = append(m.Sigs[0].Sig, byte(c.Intn(256, "ext")))
+			add("sig-extend#0", m)
+		}
 	}
 	{
 		m := o.clone()
